@@ -46,11 +46,14 @@ ENGINE_IMPORTS = []
 # ---------------------------------------------------------------------------------------------------------------
 
 PARSER_THEOREMS = ['Scalibr.Parsers.C02_apk_total', 'Scalibr.Parsers.C02_gradle_total', 'Scalibr.Parsers.C02_gemfile_total',
-                   'Scalibr.Parsers.C02_dpkg_total', 'Scalibr.Parsers.C02_requirements_total', 'Scalibr.Parsers.C02_packagelock_total']
+                   'Scalibr.Parsers.C02_dpkg_total', 'Scalibr.Parsers.C02_requirements_total', 'Scalibr.Parsers.C02_scan_lines_bounded',
+                   'Scalibr.Lockfiles.C02_packagelock_total', 'Scalibr.Lockfiles.C02_pipfile_total']
 THEOREMS = PARSER_THEOREMS + ENGINE_THEOREMS
 
 VIOLATING = ('panic', 'hang', 'oom', 'fatal')
 MUTATIONS = {'quick': 20, 'thorough': 300}       # seeded mutations per fixture (c02gen -n)
+MODELLED_N = {'quick': 150, 'thorough': 1500}    # c03gen -n: n/2 malformed inputs for each of the five line formats
+LINE_FORMATS = ('apk', 'gradle', 'gemfile', 'dpkg', 'requirements')
 GEN_TIMEOUT = {'quick': 600, 'thorough': 1800}   # seconds, whole stream
 
 
@@ -158,6 +161,73 @@ class _Judge:
             ctx.notes.append('%d generated case(s) are stale (their /repo fixture changed or disappeared)' % self.stale)
 
 
+def _split_replay(path):
+    """a C02 replay file may hold c02gen lines (`x <extractor> ...`) and c03gen lines (`<format> <hex> ...`)"""
+    fuzz, modelled = [], []
+    for l in open(path):
+        l = l.rstrip('\n')
+        if not l or l.startswith('#'):
+            continue
+        (fuzz if l.startswith('x ') else modelled).append(l.split('\t')[0])
+    return fuzz, modelled
+
+
+def modelled_stream(ctx, replay_lines=None):
+    """Correspondence of the MODELLED parsers on arbitrary / malformed bytes: the totality theorems say the Lean models never
+    reach a crash outcome; this ties them to the Go code. c03gen's malformed stream (line soups, truncations, swapped delimiters, odd
+    bytes, lines around 64 KiB) is run through the real Extract and through drv_c03; `pk` (sorted package list | - | err | panic)
+    must be equal. pk=panic from the implementation, or error-vs-value disagreement, is a violation with the case line as replay."""
+    binary = ctx.go_build('c03gen')
+    if binary is None:
+        ctx.violation('harness c03gen does not build against /repo: %s' % getattr(ctx, 'go_log', '')[-1500:],
+                      ['# the modelled-parser stream could not be built'], found_input=False, name='build-c03gen')
+        return False
+    if replay_lines is not None:
+        tmp = lib.VERIF + '/evidence/.replay-%s-modelled.txt' % ctx.prop
+        os.makedirs(lib.VERIF + '/evidence', exist_ok=True)
+        with open(tmp, 'w') as fh:
+            fh.write('\n'.join(replay_lines) + '\n')
+        rows, ok = ctx.run_gen(binary, ['-replay', tmp], timeout=600)
+        os.remove(tmp)
+    else:
+        rows, ok = ctx.run_gen(binary, ['-seed', str(ctx.seed), '-n', str(MODELLED_N[ctx.tier]), '-tier', ctx.tier], timeout=1200)
+        rows = [(c, r) for c, r in rows if re.search(r'(^| )cls=(%s)/bad' % '|'.join(LINE_FORMATS), r)]
+    if not ok:
+        ctx.violation('c03gen failed: ' + '; '.join(ctx.notes[-1:]), ['# see notes'], found_input=False, name='gencrash-c03gen')
+    if not rows:
+        if replay_lines is None:
+            ctx.violation('c03gen produced no malformed cases for the modelled parsers', ['# empty stream'], found_input=False, name='empty-c03gen')
+        return ok
+    model = ctx.run_driver('drv_c03', [c for c, _ in rows])
+    good = True
+    first_diff = None
+    for (case, impl), mod in zip(rows, model):
+        fi, fm = lib.fields(impl), lib.fields(mod)
+        fmt = case.split(' ')[0]
+        pi, pm = fi.get('pk', '?'), fm.get('pk', fm.get('_', '?'))
+        ctx.add_case(case, nontrivial=pi not in ('-', 'err', 'panic', '?'), cls='modelled/' + fmt)
+        if replay_lines is not None:
+            print('replay (modelled parser): %s\timpl %s\tmodel %s' % (case[:200], impl[:200], mod[:200]))
+        if len([x for x in ctx.samples if x.get('origin') == 'modelled']) < 3:
+            ctx.samples.append({'case': case[:300], 'impl': impl[:200], 'model': mod[:200], 'origin': 'modelled'})
+        if pi == 'panic':
+            good = False
+            ctx.violation('%s: Extract PANICKED on malformed bytes (the Lean model of this parser is total and answers %s)' % (fmt, pm), [case + '\t' + impl + '\t' + mod])
+        elif pi != pm:
+            good = False
+            ctx.mismatches.append(case)
+            if (pi == 'err') != (pm == 'err'):
+                ctx.violation('%s: model and implementation disagree on error-vs-value for malformed bytes (impl %s, model %s): the totality theorem no longer '
+                              'describes this code' % (fmt, pi[:80], pm[:80]), [case + '\t' + impl + '\t' + mod])
+            elif first_diff is None:
+                first_diff = (case, impl, mod)
+    if first_diff is not None and not any(v[2] for v in ctx.violations):
+        ctx.violation('correspondence c03gen/drv_c03 no longer checks on the malformed stream: %d case(s) differ; first diverging case below (case, impl, model)' % len(ctx.mismatches),
+                      ['\t'.join(first_diff)], found_input=False, name='corr-c03gen')
+    ctx.extra['modelled_parsers'] = {'formats': list(LINE_FORMATS), 'malformed_cases': len(rows), 'agree': good}
+    return good
+
+
 def stream(ctx):
     """The fuzz stream (SEARCH SUPPORT, NOT PROOF). Separate from run() so that it can be exercised on its own."""
     binary = ctx.go_build('c02gen')
@@ -168,7 +238,15 @@ def stream(ctx):
     judge = _Judge(ctx)
     summary = None
     if ctx.replay:
-        rows, ok = ctx.run_gen(binary, ['-replay', ctx.replay], timeout=GEN_TIMEOUT[ctx.tier])
+        fuzz_lines, _ = _split_replay(ctx.replay)
+        rows, ok = [], True
+        if fuzz_lines:
+            tmp = lib.VERIF + '/evidence/.replay-%s-fuzz.txt' % ctx.prop
+            os.makedirs(lib.VERIF + '/evidence', exist_ok=True)
+            with open(tmp, 'w') as fh:
+                fh.write('\n'.join(fuzz_lines) + '\n')
+            rows, ok = ctx.run_gen(binary, ['-replay', tmp], timeout=GEN_TIMEOUT[ctx.tier])
+            os.remove(tmp)
         for case, reply in rows:
             st = judge.row(case, reply, 'replay')
             print('replay: %s\t%s%s' % (case[:300] + ('…' if len(case) > 300 else ''), reply,
@@ -234,6 +312,7 @@ def stream(ctx):
 
 def run(ctx):
     ctx.trusted = ['Lean 4.33.0 kernel (totality / confinement theorems); axioms propext, Quot.sound, Classical.choice at most (see theorems.*.axioms)',
+                   'harness/cmd/c03gen malformed stream + lean/Drivers/C03.lean (drv_c03) tie the modelled parsers to the Go code; Lean compiler for the driver',
                    'harness/cmd/c02gen: calls the real FileRequired/Extract in-process; its canonical path-name table, sibling rules, constant etc/os-release and mutation code',
                    'Go runtime: recover(), runtime/metrics heap accounting, debug.SetMemoryLimit, process exit status of a crashed worker',
                    '/repo/**/testdata as seed corpus (read by the harness, copied into temp roots; never opened in place by an extractor)',
@@ -245,12 +324,19 @@ def run(ctx):
                        'extractors that read siblings (chrome _locales, go.sum, -r requirements, parent pom.xml, containerd snapshotter db) get the fixture\'s siblings; only the file under test is mutated']
     ctx.rule = ('case = (extractor, accepted path name, file bytes [, sibling files]); sources: corpus witnesses, every testdata fixture once per accepted name, '
                 '%d/%d (quick/thorough) seeded mutations per fixture cycling through the mutation classes, every fixture-independent document at every accepted canonical name, random bytes. '
+                'modelled/<fmt> = c03gen malformed inputs of the five line formats run on implementation and Lean model (pk must agree). '
                 'non-trivial = FileRequired accepted the path AND Extract returned at least one package (the parser got far enough to produce output); distinct = distinct case lines. '
                 'distribution key = "<mutation class> <status>"') % (MUTATIONS['quick'], MUTATIONS['thorough'])
-    ctx.lean_build(['Scalibr.Properties.C02'])
+    ctx.lean_build(['Scalibr.Properties.C02', 'drv_c03'])
     proofs_ok = ctx.audit(['Scalibr.Properties.C02'] + ENGINE_IMPORTS, THEOREMS)
     if ctx.tier == 'thorough':
         proofs_ok = ctx.leanchecker('Scalibr.Properties.C02') and proofs_ok
+    if ctx.replay:
+        _, modelled_lines = _split_replay(ctx.replay)
+        if modelled_lines:
+            modelled_stream(ctx, modelled_lines)
+    else:
+        modelled_stream(ctx)
     stream(ctx)
     ctx.extra['explanation'] = ('level "other": the kernel-checked part covers totality of the modelled parsers and engine-level confinement; '
                                 'the remaining extractors are only searched by fuzzing (coverage.unproved_support)')
